@@ -22,8 +22,29 @@ int main(void)
       pr_dvector("b", m->b); pr_dvector("xvarexp", m->xvarexp);
       pr_dvector("xavg", m->xcolaverage); pr_dvector("xsc", m->xcolscaling); pr_dvector("yavg", m->ycolaverage); pr_dvector("ysc", m->ycolscaling);
       pr_matrix("recalc", m->recalculated_y); pr_matrix("resid", m->recalc_residuals);
-      initMatrix(&ps); PLSScorePredictor(x, m, m->b->size, ps); pr_matrix("pred_same", ps); DelMatrix(&ps);
-      initMatrix(&pn); initMatrix(&yall); PLSYPredictorAllLV(xnew, m, pn, yall); pr_matrix("pred_new", pn); pr_matrix("ynew_all", yall); DelMatrix(&pn); DelMatrix(&yall);
+      reuse_mask = 0;
+      initMatrix(&ps); PLSScorePredictor(x, m, m->b->size, ps); pr_matrix("pred_same", ps);
+      { matrix *c = dup_matrix(ps); PLSScorePredictor(x, m, m->b->size, ps); RB(0, same_m(ps, c));
+        junk_m(ps); PLSScorePredictor(x, m, m->b->size, ps); RB(0, same_m(ps, c)); DelMatrix(&c); }
+      DelMatrix(&ps);
+      initMatrix(&pn); initMatrix(&yall); PLSYPredictorAllLV(xnew, m, pn, yall); pr_matrix("pred_new", pn); pr_matrix("ynew_all", yall);
+      { /* the same prediction into the same (now filled) score and response matrices; then after they held the scores and
+           predictions of ANOTHER block with the same number of rows; then with no score matrix at all */
+        matrix *cs = dup_matrix(pn), *cy = dup_matrix(yall), *other = dup_matrix(xnew), *yy; size_t i_, j_;
+        PLSYPredictorAllLV(xnew, m, pn, yall); RB(1, same_m(pn, cs)); RB(2, same_m(yall, cy));
+        for(i_ = 0; i_ < other->row; i_++) for(j_ = 0; j_ < other->col; j_++) other->data[i_][j_] = 0.5*other->data[i_][j_] + 1.0 + (double)j_;
+        PLSYPredictorAllLV(other, m, pn, yall); PLSYPredictorAllLV(xnew, m, pn, yall); RB(1, same_m(pn, cs)); RB(2, same_m(yall, cy));
+        initMatrix(&yy); PLSYPredictorAllLV(xnew, m, NULL, yy); RB(3, same_m(yy, cy)); DelMatrix(&yy);
+        /* PLSYPredictor (one model size) into a reused output: predictions for 1..A latent variables in turn */
+        { matrix *yp, *c1; size_t a_, A_ = m->b->size; initMatrix(&yp);
+          for(a_ = 1; a_ <= A_; a_++){
+            PLSYPredictor(cs, m, a_, yp);
+            initMatrix(&c1); PLSYPredictor(cs, m, a_, c1); RB(4, same_m(yp, c1)); DelMatrix(&c1);
+          }
+          DelMatrix(&yp); }
+        DelMatrix(&cs); DelMatrix(&cy); DelMatrix(&other); }
+      DelMatrix(&pn); DelMatrix(&yall);
+      pr_long("reuse_bad", reuse_mask);
       if(y->col == 1){
         for(a = 1; a <= m->b->size; a++){
           dvector *bt; initDVector(&bt); PLSBetasCoeff(m, a, bt);
